@@ -34,6 +34,8 @@ def report(ctx, bad, texts, label):
 
 def run(ctx):
     q = ctx.quick
+    if getattr(ctx, "replay", None):
+        return J.replay(ctx, "shape", lambda bad, texts, label: report(ctx, bad, texts, label))
     ctx.level = "model_checking"
     ctx.rule = ("TLC enumerates abstract data sets (34 VRs x in-memory representations x multiplicity 0..3 x value alphabets, "
                 "structures with sequences nested to depth 2) and judges the neutral JSON tree of every real output with the "
@@ -48,43 +50,49 @@ def run(ctx):
         "as Str), typed binary values, PrimitiveValue::Empty for zero length",
     ]
     vlib.build_harness(["drv_json"])
-    J.model_check(ctx)
+    r = vlib.tlc(J.SPEC, "MC_DicomJson", "MC_DicomJson.cfg", workers=1, timeout=600, coverage=False)
+    ctx.check_model(r, "test vectors of the Annex F operators")
     cases, n = J.generate(ctx)
 
-    out = ctx.path("cases")
-    rep = vlib.run_driver("drv_json", ["cases", "--cases", cases, "--out", out], env=ctx.env())
-    bad, nev = J.judge(ctx, rep["events_path"], "shape")
-    report(ctx, bad, J.texts_of(rep["texts_path"]), "TLC-generated data set")
-    ctx.cov["evaluations"] += rep["cases"]
-    ctx.cov["distinct_nontrivial"] += rep["nontrivial"]
+    rep = vlib.run_driver("drv_json", ["cases", "--cases", cases, "--out", ctx.path("cases")], env=ctx.env())
+    rep2 = vlib.run_driver("drv_json", ["random", "--n", 400 if q else 30000, "--out", ctx.path("random")], env=ctx.env())
+
+    def corrupt_key(e):          # the first key written in lower case / shifted
+        m = e.get("shape", {}).get("m")
+        if not m:
+            return False
+        m[0]["k"] = m[0]["k"].lower() if m[0]["k"].lower() != m[0]["k"] else "0" + m[0]["k"][:7]
+        return True
+
+    def corrupt_vr(e):           # the vr member of the first element dropped
+        m = e.get("shape", {}).get("m")
+        if not m:
+            return False
+        m[0]["v"]["m"] = [x for x in m[0]["v"]["m"] if x["k"] != "vr"]
+        return True
+
+    bad, nev = J.judge_all(ctx, "shape", [("TLC-generated data set", rep["events_path"]), ("seeded random data set", rep2["events_path"])],
+                           [("TLC-generated data set", corrupt_key), ("TLC-generated data set", corrupt_vr)])
+    report(ctx, bad["TLC-generated data set"], J.texts_of(rep["texts_path"]), "TLC-generated data set")
+    report(ctx, bad["seeded random data set"], J.texts_of(rep2["texts_path"]), "seeded random data set")
+    ctx.cov["evaluations"] += rep["cases"] + rep2["cases"]
+    ctx.cov["distinct_nontrivial"] += rep["nontrivial"] + rep2["cases"]
     ctx.cov["traces_validated_against_impl"] += nev
     ctx.extra_cov["vr_representation_pairs"] = rep["vr_reps"]
+    ctx.extra_cov["random_elements"] = rep2["elements"]
     ctx.extra_cov["drift_from_Shape"] = rep["drift_shape"]
-    bad_lines = {b[0] for b in bad}
-    if rep["drift_shape"] > len(bad_lines):
+    n_bad = len(bad["TLC-generated data set"])
+    if rep["drift_shape"] > n_bad:
         ctx.note("drift: %d outputs differ from the implementation-shaped Shape(ds) but %d of them conform to Annex F; first: %s"
-                 % (rep["drift_shape"], rep["drift_shape"] - len(bad_lines),
+                 % (rep["drift_shape"], rep["drift_shape"] - n_bad,
                     json.dumps([m for m in rep["mismatches"] if m["kind"] == "shape"][:1])[:600]))
     with open(cases) as f:
         for i, ln in enumerate(f):
             if i in (7, n // 3, n - 5):
                 c = json.loads(ln)
                 ctx.sample({"ds": c["ds"], "expected_shape": c["shape"]})
-
-    out2 = ctx.path("random")
-    rep2 = vlib.run_driver("drv_json", ["random", "--n", 400 if q else 6000, "--out", out2], env=ctx.env())
-    bad2, nev2 = J.judge(ctx, rep2["events_path"], "shape")
-    report(ctx, bad2, J.texts_of(rep2["texts_path"]), "seeded random data set")
-    ctx.cov["evaluations"] += rep2["cases"]
-    ctx.cov["distinct_nontrivial"] += rep2["cases"]
-    ctx.cov["traces_validated_against_impl"] += nev2
-    ctx.extra_cov["random_elements"] = rep2["elements"]
-
-    def corrupt(e):
-        m = e.get("shape", {}).get("m")
-        if not m:
-            return False
-        m[0]["k"] = m[0]["k"].lower() if m[0]["k"].lower() != m[0]["k"] else "0" + m[0]["k"][:7]
-        return True
-    J.selftest(ctx, rep["events_path"], "shape", corrupt)
     ctx.exhaustive = False
+
+
+def replay(ctx, obj):
+    run(ctx)
